@@ -766,9 +766,10 @@ Proof.
   - apply in_map_iff in Hg. destruct Hg as ([a b] & <- & _). reflexivity.
   - apply in_flat_map in Hg. destruct Hg as (i & _ & Hg).
     destruct (src_grad_applies _ _); [|destruct Hg].
-    apply in_flat_map in Hg. destruct Hg as (ch & _ & Hg).
+    unfold grad_block in Hg. apply in_flat_map in Hg. destruct Hg as (ch & _ & Hg).
     apply in_map_iff in Hg. destruct Hg as (ty & <- & _).
-    unfold cols_ok, desc_cols, f64, fsize, src_cols_struct; cbn [g_colsize g_desc f_type f_d0 f_d1 f_d2]. ring.
+    unfold cols_ok, desc_cols, f64, fsize, src_cols_struct, src_grad_colsize, src_grad_out_channels;
+      cbn [g_colsize g_desc f_type f_d0 f_d1 f_d2]. ring.
 Qed.
 
 (* ---- range checks ---------------------------------------------------------------------------------- *)
